@@ -38,6 +38,12 @@ package templater
 //@ func ResolveRef
 //@   trusted
 //@   modifies github.com/go-task/task/v3/internal/templater.*
+// The variables handed to a nested call or dependency are always a NEW Vars object (never the one of the
+// task definition, which concurrent calls share and GetTask writes MATCH into).
 //@ func ReplaceVarsWithExtra
-//@   trusted
-//@   modifies github.com/go-task/task/v3/internal/templater.*
+//@   modifies heap, om_has, om_val, om_len, om_key
+//@   preserves $RUNDATA
+//@   nilable vars result
+//@   ensures result != nil ==> fresh(result)                                                                   [C11,C18]
+//@ func ReplaceVarsWithExtra$1
+//@   modifies heap, om_has, om_val, om_len, om_key
